@@ -315,23 +315,39 @@ def eval_gmres(case):
     if abs(res - true) > 1e-10 * max(1.0, true):
         fails.append(('property', 'gmres.reported-residual-differs-from-true-residual', f'reported {res!r} true {true!r}'))
     data = 'complex' if (inp['cplx'] or np.iscomplexobj(inp['v0'])) else 'real'
-    # the running estimate |e1[k+1]|/|b| at the end of a cycle is the residual of the iterate built from it
-    ncyc = len(its)
-    for r in range(ncyc):
-        est = float(terr[r][-1])
-        after = float(terr[r + 1][0]) if r + 1 < len(terr) else true
-        if abs(est - after) > 1e-7 * max(1.0, after) + 1e-9:
-            fails.append(('property', f'gmres.{data}.residual-estimate-differs-from-residual-of-iterate',
-                          f'cycle {r}: estimate {est!r} residual {after!r} iters={its} opts={opts} d={d}'))
-            break
-        seq = [float(t) for t in terr[r]]
-        if any(seq[i + 1] > seq[i] * (1 + 1e-9) + 1e-12 for i in range(len(seq) - 1)):
-            fails.append(('property', f'gmres.{data}.residual-estimates-increase', f'cycle {r}: {seq}'))
-            break
-    # a cycle of d iterations spans the whole space: the solution is exact
-    if its and max(its) >= d and true > 1e-8:
-        fails.append(('property', f'gmres.{data}.full-dimension.not-solved',
-                      f'residual {true!r} after iters={its} in dimension {d} opts={opts}'))
+    # exact ("lucky") breakdown: the residual estimate hits exactly 0 (the Krylov space is invariant, the iterate is the
+    # solution) but the cycle goes on because k < N_min: the next Givens rotation is 0/0
+    ests = [float(t) for cyc in terr for t in cyc]
+    # some estimate / restart residual other than the very last one is at rounding level (or already NaN)
+    broke = any((t < 1e-13 or not np.isfinite(t)) for t in ests[1:-1])
+    local = []
+    if not np.isfinite(res) or not np.all(np.isfinite(ests)):
+        local.append(('property', f'gmres.{data}.result-not-finite', f'residual {res!r} iters={its} d={d} opts={opts}'))
+    else:
+        # the running estimate |e1[k+1]|/|b| at the end of a cycle is the residual of the iterate built from it
+        ncyc = len(its)
+        for r in range(ncyc):
+            est = float(terr[r][-1])
+            after = float(terr[r + 1][0]) if r + 1 < len(terr) else true
+            if abs(est - after) > 1e-7 * max(1.0, after) + 1e-9:
+                local.append(('property', f'gmres.{data}.residual-estimate-differs-from-residual-of-iterate',
+                              f'cycle {r}: estimate {est!r} residual {after!r} iters={its} opts={opts} d={d}'))
+                break
+            seq = [float(t) for t in terr[r]]
+            if any(seq[i + 1] > seq[i] * (1 + 1e-9) + 1e-12 for i in range(len(seq) - 1)):
+                local.append(('property', f'gmres.{data}.residual-estimates-increase', f'cycle {r}: {seq}'))
+                break
+        # a cycle of d iterations spans the whole space: the solution is exact
+        if its and max(its) >= d and true > 1e-8:
+            local.append(('property', f'gmres.{data}.full-dimension.not-solved',
+                          f'residual {true!r} after iters={its} in dimension {d} opts={opts}'))
+    if local and broke:
+        # the cycle went on after the residual estimate had reached rounding level (k < N_min): the next vectors are
+        # normalised noise, the next Givens rotation is 0/0 when the breakdown is exact
+        fails.append(('property', 'gmres.continues-after-exact-breakdown',
+                      f'{local[0][1]}: {local[0][2]} estimates {[float(t) for t in terr[0]][:6]}'))
+    else:
+        fails += local
     if case['mode'] == 'exact':
         run = dict(x=xs, errs=[float(t) * nb for t in terr[0][1:]], n=its[0])
         line = {'k': 'gmres', 'H': int_mat(inp['M']), 'x': [int(v) for v in np.real(x0)],
